@@ -513,8 +513,10 @@ def run_iter_representation(ctx):
         et = enc(t, ids)
         nxt = len(ids) + 5
         dim = ctx.rng.randrange(nd)
+        nd_ = ctx.rng.choice([0.0, 1.0, -math.inf, t.default])
         for op, f, arg in (('dimToDense', lambda x: [x.dim_to_dense(dim)], f'{dim} '), ('iter', lambda x: list(iter(x)), ''),
-                           ('tolist', lambda x: x.tolist(), '')):
+                           ('tolist', lambda x: x.tolist(), ''), ('defaultTo', lambda x: [x.default_to(nd_)], f'{enc_ext(nd_)} '),
+                           ('clone', lambda x: [x.clone()], '')):
             case = dict(op=op, operand=et, dim=dim)
             try:
                 r = f(t)
@@ -529,7 +531,7 @@ def run_iter_representation(ctx):
                 if flat(r) != t.to_dense().reshape(-1).tolist() and not all(a == b or (a != a and b != b) for a, b in zip(flat(r), t.to_dense().reshape(-1).tolist())):
                     ctx.fail('tolist() is not the nested list of the dense tensor', case, flat(r), t.to_dense().reshape(-1).tolist(), tags=['value', 'tolist'])
             else:
-                dense_want = [t.to_dense()] if op == 'dimToDense' else list(t.to_dense())
+                dense_want = list(t.to_dense()) if op == 'iter' else [t.to_dense()]
                 if len(r) != len(dense_want) or not all(same_dense(a.to_dense(), b, 0.0) for a, b in zip(r, dense_want)):
                     ctx.fail(f'{op}: the result does not denote the dense tensor / its slices', case, None, None, tags=['value', op])
                 wants = []
@@ -559,11 +561,11 @@ def run_iter_representation(ctx):
             if vals != want.split() or toks[-1] != 'T':
                 ctx.disagree('It.tolist: flattened list (and its equality with PT.dense)', case, want, ' '.join(toks))
             continue
-        if op == 'dimToDense':
+        if op in ('dimToDense', 'defaultTo', 'clone'):
             head, i = split_pt(toks, 0)
             mp = head + toks[i:-1]
             if canon(mp) != canon(want[0].split()) or toks[-1] != 'T':
-                ctx.disagree('It.dimToDense: representation of the result', case, want[0], ' '.join(mp))
+                ctx.disagree(f'{op} (model It.dimToDense / Jw.defaultTo / Jw.cloneT): representation of the result', case, want[0], ' '.join(mp))
             continue
         # iter: a list of tensors, each followed by its wf flag
         cnt = int(toks[0]); i = 1; ok = cnt == len(want)
